@@ -56,6 +56,27 @@ CHECKS = {
         "produces the history <rmw, rmw>). Every history is replayed in one interpreter state (fork tree) through osaca.osaca.run and compared element-wise with fresh-process reports; seeded histories <= 12 are validated by Trace_Session.",
    design_ref="5/C18, 10.3", technique="TLA+ session spec + TLC enumeration of all histories + fork-tree replay in one interpreter + batch trace validation",
    note="TLC acts mainly as enumerator/evaluator here (DESIGN section 8); a fork() continuation is taken to be the same interpreter state."),
+
+ "C09": dict(
+   category="model_checking",
+   text="TLC enumerates the x86 operand-kind lattice (676 written operands: all registers, immediates dec/hex/+- up to 64 bit, all base/index/displacement combinations x scales) checking the Canon rules, and all files <= 4 lines over the "
+        "line alphabet against a scan machine shaped like parse_file (OnePerNonBlank, LineNumbers, Verbatim, ExactlyOneKind). Every emitted operand and file is rendered with seeded layouts and parsed by the real parser; seeded random "
+        "instructions and files and the repository's .s files follow; every observation is decided by TLC (Trace_AsmSyntax / Trace_ParseFile).",
+   design_ref="5/C09, 10.4", technique="TLA+ surface-AST/denotation spec + line-scan state machine; TLC enumeration, render-parse-project replay, batch trace validation",
+   note="Trusts harness/asm_render.py (AST -> text), the projection in parsers_common.py, TLC; only lower-case register names are rendered; shifted registers / relocations are outside the statement."),
+ "C10": dict(
+   category="model_checking",
+   text="As C09 for AArch64: 792 written operands including register lists/ranges, SVE and predicate registers, floats, condition codes, shifts 0-4, pre/post index; files <= 4 lines; seeded random instructions (memory/condition/label last) "
+        "and files; repository files; all decided by TLC.",
+   design_ref="5/C10, 10.4", technique="TLA+ surface-AST/denotation spec + line-scan state machine; TLC enumeration, render-parse-project replay, batch trace validation",
+   note="Same trusted base as C09."),
+ "C20": dict(
+   category="model_checking",
+   text="TLC checks a state machine shaped like import_benchmark_output against Snap / Merged / StopsAtMalformed / EveryFormEmitted on a measurement grid around the 5 % windows and on all files <= 3 entries (thorough <= 4, 408k states) over 3 forms; "
+        "the grid files and a seeded sample of the emitted files are imported through the real `osaca --import` entry point on zen1/n1(/tx2), the emitted stream is read back as plain YAML and TLC decides every import; seeded random files cover all "
+        "documented operand codes of both ISAs, corrupted asmbench structure, mnemonics already present in the target model.",
+   design_ref="5/C20, 10.4", technique="TLA+ import state machine + TLC exhaustive on small files + replay through the CLI + batch trace validation",
+   note="Both readings of 'within 5 %' are admitted, both outcomes exactly on a window edge; trusts file rendering, the YAML projection, the README operand-code table as transcribed in Decode."),
  "C12": dict(
    category="model_checking",
    text="TLC enumerates every ordered pair of register names of both ISAs (MC_RegAlias: equivalence relation, family sizes), "
